@@ -495,7 +495,7 @@ def merge(args):
             if not args.flatten:
                 _check_abundance_compatibility(first_sig, sigobj)
             else:
-                sigobj_mh.track_abundance = False
+                sigobj_mh = sigobj_mh.flatten()
 
             mh.merge(sigobj_mh)
         except (TypeError, ValueError) as exc:
@@ -1120,8 +1120,7 @@ def kmers(args):
             query_mh.track_abundance = False
 
         try:
-            sigobj_mh = sigobj.minhash
-            sigobj_mh.track_abundance = False
+            sigobj_mh = sigobj.minhash.flatten()
 
             query_mh.merge(sigobj_mh)
         except (TypeError, ValueError) as exc:
